@@ -7,6 +7,7 @@ P=$1; N=$2; PKG=$3; RUN=${4:-.}
 SRC=/tmp/mut-$P-out
 ID=$N
 if [ "${ROUND:-}" = b ]; then SRC=/tmp/mutb-$P-out; ID=$((N+2)); fi
+if [ "${ROUND:-}" = c ]; then SRC=/tmp/mutc-$P-out; ID=$((N+4)); fi
 WT=/tmp/seedchk-$P-$ID
 export GOFLAGS=-mod=mod GOPROXY=off GOSUMDB=off GOTOOLCHAIN=local
 git -C /repo worktree remove --force $WT 2>/dev/null
